@@ -174,27 +174,51 @@ impl GraphEngine {
     /// Note: This MVP does not backfill existing data. The index will only track
     /// valid data inserted *after* index creation.
     pub fn create_index(&self, label: &str, field: &str) -> Result<()> {
+        #[cfg(nervusdb_verif)]
+        crate::verif_hooks::lock("index_catalog", "lock", 0);
         let mut catalog = self.index_catalog.lock().unwrap();
+        #[cfg(nervusdb_verif)]
+        let _vt_catalog = crate::verif_hooks::lock_acquired("index_catalog", "lock");
         let name = format!("{}.{}", label, field);
         if catalog.get(&name).is_some() {
             return Ok(());
         }
 
+        #[cfg(nervusdb_verif)]
+        crate::verif_hooks::lock("pager", "write", 0);
         let mut pager = self.pager.write().unwrap();
+        #[cfg(nervusdb_verif)]
+        let _vt_pager = crate::verif_hooks::lock_acquired("pager", "write");
         catalog.get_or_create(&mut pager, &name)?;
         catalog.flush(&mut pager)?;
         Ok(())
     }
 
     pub fn begin_read(&self) -> Snapshot {
+        #[cfg(nervusdb_verif)]
+        crate::verif_hooks::lock("published_runs", "read", 0);
         let runs = self.published_runs.read().unwrap().clone();
         #[cfg(nervusdb_verif)]
+        drop(crate::verif_hooks::lock_acquired("published_runs", "read"));
+        #[cfg(nervusdb_verif)]
         crate::verif_hooks::sched("read.after_runs");
+        #[cfg(nervusdb_verif)]
+        crate::verif_hooks::lock("published_segments", "read", 0);
         let segments = self.published_segments.read().unwrap().clone();
         #[cfg(nervusdb_verif)]
+        drop(crate::verif_hooks::lock_acquired("published_segments", "read"));
+        #[cfg(nervusdb_verif)]
         crate::verif_hooks::sched("read.after_segments");
+        #[cfg(nervusdb_verif)]
+        crate::verif_hooks::lock("published_labels", "read", 0);
         let labels = self.published_labels.read().unwrap().clone();
+        #[cfg(nervusdb_verif)]
+        drop(crate::verif_hooks::lock_acquired("published_labels", "read"));
+        #[cfg(nervusdb_verif)]
+        crate::verif_hooks::lock("published_node_labels", "read", 0);
         let node_labels = self.published_node_labels.read().unwrap().clone();
+        #[cfg(nervusdb_verif)]
+        drop(crate::verif_hooks::lock_acquired("published_node_labels", "read"));
         #[cfg(nervusdb_verif)]
         crate::verif_hooks::sched("read.after_node_labels");
         let (properties_root, stats_root) =
@@ -210,7 +234,11 @@ impl GraphEngine {
     }
 
     pub fn begin_write(&self) -> WriteTxn<'_> {
+        #[cfg(nervusdb_verif)]
+        crate::verif_hooks::lock("write_lock", "lock", 0);
         let guard = self.write_lock.lock().unwrap();
+        #[cfg(nervusdb_verif)]
+        let _vt_guard = crate::verif_hooks::lock_acquired("write_lock", "lock");
         let txid = self.next_txid.fetch_add(1, Ordering::Relaxed);
         WriteTxn {
             engine: self,
@@ -234,7 +262,11 @@ impl GraphEngine {
     pub fn get_or_create_label(&self, name: &str) -> Result<LabelId> {
         // Optimistic read
         {
+            #[cfg(nervusdb_verif)]
+            crate::verif_hooks::lock("label_interner", "lock", 0);
             let interner = self.label_interner.lock().unwrap();
+            #[cfg(nervusdb_verif)]
+            let _vt_interner = crate::verif_hooks::lock_acquired("label_interner", "lock");
             if let Some(id) = interner.get_id(name) {
                 return Ok(id);
             }
@@ -243,7 +275,11 @@ impl GraphEngine {
         // Write path: serialize with a lock or just rely on interner lock?
         // We need to write to WAL, so let's handle it carefully.
         // We'll just lock interner, check again, then write WAL, then update interner.
+        #[cfg(nervusdb_verif)]
+        crate::verif_hooks::lock("label_interner", "lock", 0);
         let mut interner = self.label_interner.lock().unwrap();
+        #[cfg(nervusdb_verif)]
+        let _vt_interner = crate::verif_hooks::lock_acquired("label_interner", "lock");
         if let Some(id) = interner.get_id(name) {
             return Ok(id);
         }
@@ -256,7 +292,11 @@ impl GraphEngine {
         // We wrap this in a mini-transaction to ensure replayability.
         {
             let txid = self.next_txid.fetch_add(1, Ordering::Relaxed);
+            #[cfg(nervusdb_verif)]
+            crate::verif_hooks::lock("wal", "lock", 0);
             let mut wal = self.wal.lock().unwrap();
+            #[cfg(nervusdb_verif)]
+            let _vt_wal = crate::verif_hooks::lock_acquired("wal", "lock");
             wal.append(&WalRecord::BeginTx { txid })?;
             wal.append(&WalRecord::CreateLabel {
                 name: name.to_string(),
@@ -268,7 +308,11 @@ impl GraphEngine {
 
         // Update Published Snapshot
         let snapshot = interner.snapshot();
+        #[cfg(nervusdb_verif)]
+        crate::verif_hooks::lock("published_labels", "write", 0);
         let mut published = self.published_labels.write().unwrap();
+        #[cfg(nervusdb_verif)]
+        let _vt_published = crate::verif_hooks::lock_acquired("published_labels", "write");
         *published = Arc::new(snapshot);
 
         Ok(returned_id)
@@ -278,7 +322,11 @@ impl GraphEngine {
     /// Should be called after write transactions that create nodes.
     fn update_published_node_labels(&self) {
         let snapshot = read_i2l_snapshot(&self.idmap);
+        #[cfg(nervusdb_verif)]
+        crate::verif_hooks::lock("published_node_labels", "write", 0);
         let mut published = self.published_node_labels.write().unwrap();
+        #[cfg(nervusdb_verif)]
+        let _vt_published = crate::verif_hooks::lock_acquired("published_node_labels", "write");
         *published = Arc::new(snapshot);
     }
 
@@ -299,14 +347,30 @@ impl GraphEngine {
 
     // T203: HNSW Public API
     pub fn insert_vector(&self, id: InternalNodeId, vector: Vec<f32>) -> Result<()> {
+        #[cfg(nervusdb_verif)]
+        crate::verif_hooks::lock("pager", "write", 0);
         let mut pager = self.pager.write().unwrap();
+        #[cfg(nervusdb_verif)]
+        let _vt_pager = crate::verif_hooks::lock_acquired("pager", "write");
+        #[cfg(nervusdb_verif)]
+        crate::verif_hooks::lock("vector_index", "lock", 0);
         let mut idx = self.vector_index.lock().unwrap();
+        #[cfg(nervusdb_verif)]
+        let _vt_idx = crate::verif_hooks::lock_acquired("vector_index", "lock");
         idx.insert(&mut *pager, id, vector)
     }
 
     pub fn search_vector(&self, query: &[f32], k: usize) -> Result<Vec<(InternalNodeId, f32)>> {
+        #[cfg(nervusdb_verif)]
+        crate::verif_hooks::lock("pager", "write", 0);
         let mut pager = self.pager.write().unwrap();
+        #[cfg(nervusdb_verif)]
+        let _vt_pager = crate::verif_hooks::lock_acquired("pager", "write");
+        #[cfg(nervusdb_verif)]
+        crate::verif_hooks::lock("vector_index", "lock", 0);
         let mut idx = self.vector_index.lock().unwrap();
+        #[cfg(nervusdb_verif)]
+        let _vt_idx = crate::verif_hooks::lock_acquired("vector_index", "lock");
         idx.search(&mut *pager, query, k)
     }
 
@@ -315,7 +379,11 @@ impl GraphEngine {
     }
 
     fn publish_run(&self, run: Arc<L0Run>) {
+        #[cfg(nervusdb_verif)]
+        crate::verif_hooks::lock("published_runs", "write", 0);
         let mut current = self.published_runs.write().unwrap();
+        #[cfg(nervusdb_verif)]
+        let _vt_current = crate::verif_hooks::lock_acquired("published_runs", "write");
         let mut next = Vec::with_capacity(current.len() + 1);
         next.push(run);
         next.extend(current.iter().cloned());
@@ -328,9 +396,17 @@ impl GraphEngine {
     /// - Writes CSR segment pages to `.ndb` and fsyncs before publishing the manifest in WAL.
     /// - Writes `ManifestSwitch` + `Checkpoint` as a committed WAL tx to make the switch atomic.
     pub fn compact(&self) -> Result<()> {
+        #[cfg(nervusdb_verif)]
+        crate::verif_hooks::lock("write_lock", "lock", 0);
         let _guard = self.write_lock.lock().unwrap();
+        #[cfg(nervusdb_verif)]
+        let _vt_guard = crate::verif_hooks::lock_acquired("write_lock", "lock");
 
+        #[cfg(nervusdb_verif)]
+        crate::verif_hooks::lock("published_runs", "read", 0);
         let runs = self.published_runs.read().unwrap().clone();
+        #[cfg(nervusdb_verif)]
+        drop(crate::verif_hooks::lock_acquired("published_runs", "read"));
 
         if runs.is_empty() {
             return Ok(());
@@ -342,7 +418,11 @@ impl GraphEngine {
         let mut seg = build_segment_from_runs(seg_id, &runs);
 
         {
+            #[cfg(nervusdb_verif)]
+            crate::verif_hooks::lock("pager", "write", 0);
             let mut pager = self.pager.write().unwrap();
+            #[cfg(nervusdb_verif)]
+            let _vt_pager = crate::verif_hooks::lock_acquired("pager", "write");
             seg.persist(&mut pager)?;
             pager.sync()?;
         }
@@ -351,7 +431,11 @@ impl GraphEngine {
         let epoch = self.manifest_epoch.load(Ordering::Relaxed) + 1;
 
         let new_segments = {
+            #[cfg(nervusdb_verif)]
+            crate::verif_hooks::lock("published_segments", "read", 0);
             let current = self.published_segments.read().unwrap().clone();
+            #[cfg(nervusdb_verif)]
+            drop(crate::verif_hooks::lock_acquired("published_segments", "read"));
             let mut next = Vec::with_capacity(current.len() + 1);
             next.push(Arc::new(seg));
             next.extend(current.iter().cloned());
@@ -382,7 +466,11 @@ impl GraphEngine {
         crate::verif_hooks::sched("compact.before_sink");
         let mut current_root = self.properties_root.load(Ordering::SeqCst);
         if !sink_node_props.is_empty() || !sink_edge_props.is_empty() {
+            #[cfg(nervusdb_verif)]
+            crate::verif_hooks::lock("pager", "write", 0);
             let mut pager = self.pager.write().unwrap();
+            #[cfg(nervusdb_verif)]
+            let _vt_pager = crate::verif_hooks::lock_acquired("pager", "write");
             let mut tree = if current_root == 0 {
                 BTree::create(&mut pager)?
             } else {
@@ -423,7 +511,11 @@ impl GraphEngine {
         // Statistics Collection - read directly from IdMap for accuracy
         let mut stats = crate::stats::GraphStatistics::default();
         {
+            #[cfg(nervusdb_verif)]
+            crate::verif_hooks::lock("idmap", "lock", 0);
             let idmap = self.idmap.lock().unwrap();
+            #[cfg(nervusdb_verif)]
+            let _vt_idmap = crate::verif_hooks::lock_acquired("idmap", "lock");
             let node_labels = idmap.get_i2l_snapshot();
 
             // Count nodes per label (node_labels[iid] = vec of label_ids for that node)
@@ -444,7 +536,11 @@ impl GraphEngine {
 
         let stats_root;
         {
+            #[cfg(nervusdb_verif)]
+            crate::verif_hooks::lock("pager", "write", 0);
             let mut pager = self.pager.write().unwrap();
+            #[cfg(nervusdb_verif)]
+            let _vt_pager = crate::verif_hooks::lock_acquired("pager", "write");
             let encoded_stats = stats.encode();
             stats_root = crate::blob_store::BlobStore::write(&mut pager, &encoded_stats)?;
         }
@@ -459,7 +555,11 @@ impl GraphEngine {
 
         let system_txid = self.next_txid.fetch_add(1, Ordering::Relaxed);
         {
+            #[cfg(nervusdb_verif)]
+            crate::verif_hooks::lock("wal", "lock", 0);
             let mut wal = self.wal.lock().unwrap();
+            #[cfg(nervusdb_verif)]
+            let _vt_wal = crate::verif_hooks::lock_acquired("wal", "lock");
             wal.append(&WalRecord::BeginTx { txid: system_txid })?;
             wal.append(&WalRecord::ManifestSwitch {
                 epoch,
@@ -485,13 +585,21 @@ impl GraphEngine {
         #[cfg(nervusdb_verif)]
         crate::verif_hooks::sched("compact.after_roots");
         {
+            #[cfg(nervusdb_verif)]
+            crate::verif_hooks::lock("published_runs", "write", 0);
             let mut cur_runs = self.published_runs.write().unwrap();
+            #[cfg(nervusdb_verif)]
+            let _vt_cur_runs = crate::verif_hooks::lock_acquired("published_runs", "write");
             *cur_runs = Arc::new(Vec::new());
         }
         #[cfg(nervusdb_verif)]
         crate::verif_hooks::sched("compact.after_clear_runs");
         {
+            #[cfg(nervusdb_verif)]
+            crate::verif_hooks::lock("published_segments", "write", 0);
             let mut cur_segs = self.published_segments.write().unwrap();
+            #[cfg(nervusdb_verif)]
+            let _vt_cur_segs = crate::verif_hooks::lock_acquired("published_segments", "write");
             *cur_segs = new_segments;
         }
         #[cfg(nervusdb_verif)]
@@ -514,18 +622,34 @@ impl GraphEngine {
     /// - the current manifest (`ManifestSwitch`) plus
     /// - a `Checkpoint` that allows recovery to skip older graph tx.
     pub fn checkpoint_on_close(&self) -> Result<()> {
+        #[cfg(nervusdb_verif)]
+        crate::verif_hooks::lock("write_lock", "lock", 0);
         let _guard = self.write_lock.lock().unwrap();
+        #[cfg(nervusdb_verif)]
+        let _vt_guard = crate::verif_hooks::lock_acquired("write_lock", "lock");
 
+        #[cfg(nervusdb_verif)]
+        crate::verif_hooks::lock("published_runs", "read", 0);
         let runs = self.published_runs.read().unwrap().clone();
+        #[cfg(nervusdb_verif)]
+        drop(crate::verif_hooks::lock_acquired("published_runs", "read"));
         if !runs.is_empty() {
             // Cannot compact WAL safely while L0 runs (esp. properties) are WAL-only.
             // Best-effort durability: flush NDB + WAL.
             {
+                #[cfg(nervusdb_verif)]
+                crate::verif_hooks::lock("pager", "write", 0);
                 let mut pager = self.pager.write().unwrap();
+                #[cfg(nervusdb_verif)]
+                let _vt_pager = crate::verif_hooks::lock_acquired("pager", "write");
                 pager.sync()?;
             }
             {
+                #[cfg(nervusdb_verif)]
+                crate::verif_hooks::lock("wal", "lock", 0);
                 let mut wal = self.wal.lock().unwrap();
+                #[cfg(nervusdb_verif)]
+                let _vt_wal = crate::verif_hooks::lock_acquired("wal", "lock");
                 wal.fsync()?;
             }
             return Ok(());
@@ -533,16 +657,28 @@ impl GraphEngine {
 
         // Ensure idmap/pages are durable before allowing recovery to skip old WAL.
         {
+            #[cfg(nervusdb_verif)]
+            crate::verif_hooks::lock("pager", "write", 0);
             let mut pager = self.pager.write().unwrap();
+            #[cfg(nervusdb_verif)]
+            let _vt_pager = crate::verif_hooks::lock_acquired("pager", "write");
             pager.sync()?;
         }
 
         let labels = {
+            #[cfg(nervusdb_verif)]
+            crate::verif_hooks::lock("label_interner", "lock", 0);
             let interner = self.label_interner.lock().unwrap();
+            #[cfg(nervusdb_verif)]
+            let _vt_interner = crate::verif_hooks::lock_acquired("label_interner", "lock");
             interner.snapshot()
         };
 
+        #[cfg(nervusdb_verif)]
+        crate::verif_hooks::lock("published_segments", "read", 0);
         let segments = self.published_segments.read().unwrap().clone();
+        #[cfg(nervusdb_verif)]
+        drop(crate::verif_hooks::lock_acquired("published_segments", "read"));
         let pointers: Vec<SegmentPointer> = segments
             .iter()
             .map(|s| SegmentPointer {
@@ -581,7 +717,11 @@ impl GraphEngine {
         });
 
         {
+            #[cfg(nervusdb_verif)]
+            crate::verif_hooks::lock("wal", "lock", 0);
             let mut wal = self.wal.lock().unwrap();
+            #[cfg(nervusdb_verif)]
+            let _vt_wal = crate::verif_hooks::lock_acquired("wal", "lock");
             wal.rewrite_as_snapshot(system_txid, ops)?;
             wal.fsync()?;
         }
@@ -697,7 +837,11 @@ impl<'a> WriteTxn<'a> {
         }
 
         let base_next = {
+            #[cfg(nervusdb_verif)]
+            crate::verif_hooks::lock("idmap", "lock", 0);
             let idmap = self.engine.idmap.lock().unwrap();
+            #[cfg(nervusdb_verif)]
+            let _vt_idmap = crate::verif_hooks::lock_acquired("idmap", "lock");
             idmap.next_internal_id()
         };
         let internal_id = base_next + self.created_nodes.len() as u32;
@@ -800,7 +944,11 @@ impl<'a> WriteTxn<'a> {
             }
         }
 
+        #[cfg(nervusdb_verif)]
+        crate::verif_hooks::lock("label_interner", "lock", 0);
         let interner = self.engine.label_interner.lock().unwrap();
+        #[cfg(nervusdb_verif)]
+        let _vt_interner = crate::verif_hooks::lock_acquired("label_interner", "lock");
         self.created_nodes
             .iter()
             .map(|(_, _, node_id)| {
@@ -832,7 +980,11 @@ impl<'a> WriteTxn<'a> {
 
         // 1) Append WAL and fsync (durability Full by default).
         {
+            #[cfg(nervusdb_verif)]
+            crate::verif_hooks::lock("wal", "lock", 0);
             let mut wal = self.engine.wal.lock().unwrap();
+            #[cfg(nervusdb_verif)]
+            let _vt_wal = crate::verif_hooks::lock_acquired("wal", "lock");
             wal.append(&WalRecord::BeginTx { txid: self.txid })?;
 
             for (external_id, label_id, internal_id) in &self.created_nodes {
@@ -942,6 +1094,8 @@ impl<'a> WriteTxn<'a> {
 
                 if let Some(lid) = label_id {
                     // Resolve Label Name
+                    #[cfg(nervusdb_verif)]
+                    crate::verif_hooks::lock("label_interner", "lock", 3);
                     let label_name = self
                         .engine
                         .label_interner
@@ -953,6 +1107,8 @@ impl<'a> WriteTxn<'a> {
                     if let Some(label_name) = label_name {
                         let index_name = format!("{}.{}", label_name, key);
                         // Check if index exists without holding the lock for long
+                        #[cfg(nervusdb_verif)]
+                        crate::verif_hooks::lock("index_catalog", "lock", 3);
                         let has_index = self
                             .engine
                             .index_catalog
@@ -989,6 +1145,8 @@ impl<'a> WriteTxn<'a> {
 
                 let label_id = snapshot.node_label(*node);
                 if let Some(lid) = label_id {
+                    #[cfg(nervusdb_verif)]
+                    crate::verif_hooks::lock("label_interner", "lock", 3);
                     let label_name = self
                         .engine
                         .label_interner
@@ -998,6 +1156,8 @@ impl<'a> WriteTxn<'a> {
                         .map(|s| s.to_string());
                     if let Some(label_name) = label_name {
                         let index_name = format!("{}.{}", label_name, key);
+                        #[cfg(nervusdb_verif)]
+                        crate::verif_hooks::lock("index_catalog", "lock", 3);
                         let has_index = self
                             .engine
                             .index_catalog
@@ -1016,8 +1176,16 @@ impl<'a> WriteTxn<'a> {
 
             // Apply Index Updates
             if !index_ops.is_empty() {
+                #[cfg(nervusdb_verif)]
+                crate::verif_hooks::lock("index_catalog", "lock", 0);
                 let mut catalog = self.engine.index_catalog.lock().unwrap();
+                #[cfg(nervusdb_verif)]
+                let _vt_catalog = crate::verif_hooks::lock_acquired("index_catalog", "lock");
+                #[cfg(nervusdb_verif)]
+                crate::verif_hooks::lock("pager", "write", 0);
                 let mut pager = self.engine.pager.write().unwrap();
+                #[cfg(nervusdb_verif)]
+                let _vt_pager = crate::verif_hooks::lock_acquired("pager", "write");
 
                 for (op, node_id) in index_ops {
                     match op {
@@ -1085,8 +1253,16 @@ impl<'a> WriteTxn<'a> {
 
         // 3. Apply created nodes to IdMap / Node Index
         {
+            #[cfg(nervusdb_verif)]
+            crate::verif_hooks::lock("idmap", "lock", 0);
             let mut idmap = self.engine.idmap.lock().unwrap();
+            #[cfg(nervusdb_verif)]
+            let _vt_idmap = crate::verif_hooks::lock_acquired("idmap", "lock");
+            #[cfg(nervusdb_verif)]
+            crate::verif_hooks::lock("pager", "write", 0);
             let mut pager = self.engine.pager.write().unwrap();
+            #[cfg(nervusdb_verif)]
+            let _vt_pager = crate::verif_hooks::lock_acquired("pager", "write");
             for (external_id, label_id, internal_id) in self.created_nodes {
                 idmap.apply_create_node(&mut pager, external_id, label_id, internal_id)?;
             }
